@@ -201,7 +201,9 @@ class Run:
             provs = step["providers"]
             rec.emit("step", op="add_listener", phase="begin", providers=provs)
             try:
-                self.sm.add_listener(*[self.objs[p] for p in provs])
+                # `add_observer` is the older spelling of the same entry point (deprecated alias)
+                attach = self.sm.add_observer if step.get("via") == "observer" else self.sm.add_listener
+                attach(*[self.objs[p] for p in provs])
                 rec.emit("step", op="add_listener", phase="end", providers=provs)
             except Exception as err:  # noqa: BLE001
                 rec.emit("step", op="add_listener", phase="end", providers=provs, exc=type(err).__name__, exc_msg=str(err)[:200])
